@@ -79,9 +79,12 @@ def check_mut(run, A):
                         key = (a[1], a[2], c.fn.qual)
                         if key not in global_seen:
                             global_seen.add(key)
-                            run.violation('R-STATE', f'{c.fn.qual} mutates module-level object {a[2]}', c.fn.loc(node),
-                                          f'`{norm_stmt(node) if node is not None else kind}` writes into the module global `{a[1]}.{a[2]}`: results depend on the history of earlier calls '
-                                          f'(e.g. a cache keyed on part of the configuration is shared between objects)',
+                            memo = a[2].startswith('<results memoised')
+                            run.violation('R-STATE', f'{c.fn.qual} mutates {"a memoised result" if memo else "module-level object"} {a[2]}', c.fn.loc(node),
+                                          (f'`{norm_stmt(node) if node is not None else kind}` writes into an array returned by a memoising function ({a[2][1:-1]}): every later call with '
+                                           f'equal arguments receives the SAME, now modified, object - results depend on the history of earlier calls' if memo else
+                                           f'`{norm_stmt(node) if node is not None else kind}` writes into the module global `{a[1]}.{a[2]}`: results depend on the history of earlier calls '
+                                           f'(e.g. a cache keyed on part of the configuration is shared between objects)'),
                                           construct=f'R-STATE::{c.fn.qual}::global-mutation::{a[2]}', path=c.chain())
                 if kind.startswith('container'):
                     continue
